@@ -475,6 +475,8 @@ impl Database {
         if parallelize_db_level_op(self.total_size_estimate) {
             let dash_rule_reports: Arc<DashMap<Arc<str>, Vec<RuleReport>>> =
                 Arc::new(DashMap::default());
+            #[cfg(feature = "verif-hooks")]
+            egglog_concurrency::verif::probe("run_rule_set_parallel");
             let db: &Database = self;
             egglog_concurrency::scope(|scope| {
                 for (plan, desc, symbol_map) in rule_set.plans.values() {
@@ -493,6 +495,8 @@ impl Database {
                     let trie_cache = trie_cache.clone();
                     scope.spawn(move |rule_scope| {
                         let join_state = JoinState::new(db, exec_state.clone(), trie_cache);
+                        #[cfg(feature = "verif-hooks")]
+                        egglog_concurrency::verif::yield_point(egglog_concurrency::verif::site::RULE_TASK);
                         let mut binding_info = BindingInfo::default();
                         let mut action_buf =
                             ScopedActionBuffer::new(rule_scope, rule_set, match_counter.clone());
@@ -589,6 +593,8 @@ impl Database {
                             }
                         }
                         let search_and_apply_time = search_and_apply_timer.elapsed();
+                        #[cfg(feature = "verif-hooks")]
+                        egglog_concurrency::verif::yield_point(egglog_concurrency::verif::site::ACTION_FLUSH);
                         if action_buf.needs_flush {
                             action_buf.flush(&mut exec_state.clone());
                         }
